@@ -8,6 +8,10 @@
 EXTENDS Naturals, Sequences
 
 CONSTANT AsciiOnlyDigits
+\* TRUE: RE_TRIM_SPACES of the pinned tree, ^\s+(\S.*?)\s+$ - trims only when BOTH ends carry whitespace, so a trailing colon
+\* followed by whitespace (and no leading whitespace) is still followed by whitespace when RE_TRIM_COLONS looks at the end.
+\* FALSE: the repaired rule ^\s*(\S.*?)\s*$ - either end alone is trimmed.
+CONSTANT TrimNeedsBothEnds
 Classes == {"D", "N", "S", "W", "B", "P", "C", "L", "O"}
 IsWs(c) == c \in {"S", "W", "B"}          \* Python's \s matches NBSP too
 IsDigit(c) == c \in {"D", "N"}            \* \d with re.UNICODE
@@ -16,7 +20,7 @@ IsDigit(c) == c \in {"D", "N"}            \* \d with re.UNICODE
 Subst(s, from, to) == [i \in 1..Len(s) |-> IF s[i] = from THEN to ELSE s[i]]
 SkipStep(s) == Subst(s, "W", "S")
 
-\* sanitize_spaces: NBSP -> space; \s+ -> one space; trim only when BOTH ends carry whitespace
+\* sanitize_spaces: NBSP -> space; \s+ -> one space; trim (pinned: only when BOTH ends carry whitespace)
 NbspStep(s) == Subst(s, "B", "S")
 RECURSIVE Squeeze(_)
 Squeeze(s) == IF Len(s) < 2 THEN (IF s = <<"W">> THEN <<"S">> ELSE s)
@@ -24,7 +28,12 @@ Squeeze(s) == IF Len(s) < 2 THEN (IF s = <<"W">> THEN <<"S">> ELSE s)
               ELSE <<IF IsWs(s[1]) THEN "S" ELSE s[1]>> \o Squeeze(Tail(s))
 TrimBoth(s) == IF Len(s) >= 3 /\ IsWs(s[1]) /\ IsWs(s[Len(s)]) /\ ~IsWs(s[2])
                  THEN SubSeq(s, 2, Len(s) - 1) ELSE s
-SpacesStep(s) == TrimBoth(Squeeze(NbspStep(s)))
+\* (the repaired pattern needs one non-blank character; both ends are at most one space wide after Squeeze)
+TrimEither(s) == IF ~(\E i \in 1..Len(s) : ~IsWs(s[i])) THEN s
+                 ELSE LET a == IF IsWs(s[1]) THEN 2 ELSE 1
+                          b == IF IsWs(s[Len(s)]) THEN Len(s) - 1 ELSE Len(s)
+                      IN SubSeq(s, a, b)
+SpacesStep(s) == IF TrimNeedsBothEnds THEN TrimBoth(Squeeze(NbspStep(s))) ELSE TrimEither(Squeeze(NbspStep(s)))
 
 \* RE_SANITIZE_PERIOD: a '.' preceded by a character that is neither a digit nor whitespace is removed
 PeriodDigit(c) == IF AsciiOnlyDigits THEN c = "D" ELSE IsDigit(c)
